@@ -157,6 +157,10 @@ def run(ctx, budget):
     # message-free inputs without an index request
     files.append((bytes(rng.randrange(1, 256) for _ in range(50)).replace(b'\x2e', b'\x00'), 'junk2'))
     files.append((b'', 'empty2'))
+    for r in fv.corpus('C18'):      # regression corpus first
+        if 'file' in r:
+            one_file(ctx, bytes.fromhex(r['file']), 'corpus', lines, pending, via_app=False, save_index=r.get('save_index', True))
+            ctx.count('corpus_cases')
     # rebound block constants on a few
     for i, f in enumerate(files):
         data, kinds = f[0], f[1]
